@@ -183,3 +183,7 @@ pub broadcast proof fn axiom_str_bytes_empty(s: Seq<char>)
 pub fn v_string_eq(a: &String, b: &String) -> (r: bool)
     ensures r == (a@ == b@)
 { a == b }
+#[verifier::external_body]
+pub fn v_min_usize(a: usize, b: usize) -> (r: usize)
+    ensures r == (if a <= b { a } else { b })
+{ std::cmp::min(a, b) }
